@@ -42,6 +42,10 @@ CLAIMED = {
                 text="Backoff.tla: TLC enumerates every small (initial, max, multiplier, max_count) tuple and every advance/reset sequence; each is replayed on the real penguin_mux::timing::Backoff and every returned value validated. ClientRetry.tla: the attempt loop with the clauses DelaySequence, ResetAfterSuccess, GiveUpExactly, NonRetryableEndsAtOnce, ListenerAlive, NoLostRequest; TLC enumerates scripts of server behaviours per attempt (refuse, stall, bad response, close orderly/abruptly after d ms, healthy); the real client_main_inner runs against a scripted fake server on loopback and TLC validates each timeline (counts and order exact, time gaps with an exact lower and a generous upper bound).",
                 note="real time and the real tokio runtime for the reconnection part (run sequentially, never overlapping with TLC); upper time bounds generous (delay + handshake_timeout + 1.5 s); a panic of Backoff next to Duration::MAX is accepted (outside the property's quantifier) and counted",
                 ref="DESIGN.md section 4 (C19)"),
+    "C01": dict(engine="tunnel", technique="TLA+ oracle of a direct connection (DirectConn.tla) model-checked by TLC, which also generates the scenario scripts; per-endpoint logs of a real client+server on loopback validated by TLC (interleaving search)",
+                text="DirectConn.tla states, from the property text, what the two ends of a direct TCP connection observe (monitors Prefix, Complete, HalfClose, ClosedNotHanging) and the relation a UDP exchange must satisfy (SOCKS5 replies parsed by ParseUdp of Socks.tla); TLC checks the monitors on every interleaving of every pair of endpoint programs over an ideal connection, fails 14 negative-control networks, and generates the scenario shapes; a real penguin server and client run in-process on loopback with one remote per entry point kind (TCP port, Unix socket, SOCKS4/4a/5, HTTP CONNECT, UDP remote, SOCKS5 UDP association), every script is played with real sockets on both ends (position-coded payloads, every chunking/close order of the shapes, concurrent connections and UDP clients), and TLC validates each connection by searching the interleavings of the two endpoint logs for one the monitors accept.",
+                note="real sockets and the real tokio runtime: schedules are whatever the runtime produces (sampled, not enumerated); one clock-based judgement (5 s 'left hanging' deadline); IPv4 loopback, plain WebSocket; completeness is not demanded where a direct connection would not promise it (after an abortive close / reset / refusal)",
+                ref="DESIGN.md section 4 (C01)"),
     "C16": dict(engine="keepalive", technique="timed TLA+ model (Keepalive.tla) checked by TLC + virtual-time traces of the real task validated by TLC",
                 text="TLC checks the clauses of C16 on the tick-based detector for every (I,T) of a grid and every pong history within the horizon (integer time); the real connection task runs on tokio's paused clock against a silent transport with a scripted responder for TLC-enumerated and random cases, and TLC evaluates the same clause definitions on every virtual-time trace.",
                 note="virtual time (exact); FIFO pongs; same-instant events may be processed in either order; finding F12 (false timeouts when I does not divide T) is a known design-level finding",
@@ -60,9 +64,7 @@ for p in props:
             level_claimed=dict(category="model_checking", text=c["text"], design_ref=c["ref"]),
             level_note=c["note"]))
 
-PENDING = {
-    "C01": "end-to-end tunnel driver not built yet in this session",
-}
+PENDING = {}
 manifest = dict(
     version=1, setup_cmd="python3 tools/setup.py",
     hooks=dict(guard="cargo feature `verif-hooks` of penguin-mux (the hook module is additionally gated by cfg(all(test, loom)))",
@@ -77,6 +79,7 @@ manifest = dict(
         dict(name="chain", path="tools/fam_chain.py", serves_properties=["C20"], kind_free_text="Chain.tla / ChainTrace.tla + harness chain_vec"),
         dict(name="keepalive", path="tools/fam_keepalive.py", serves_properties=["C16"], kind_free_text="Keepalive.tla / KeepaliveTrace.tla + harness keepalive_sim"),
         dict(name="gate", path="tools/fam_gate.py", serves_properties=["C14"], kind_free_text="Upgrade.tla / MC_Upgrade.tla / UpgradeTrace.tla + harness_app gate"),
+        dict(name="tunnel", path="tools/fam_tunnel.py", serves_properties=["C01"], kind_free_text="DirectConn.tla / MC_DirectConn.tla / TunnelTrace.tla + harness_app tunnel"),
         dict(name="retry", path="tools/fam_retry.py", serves_properties=["C19"], kind_free_text="Backoff.tla / ClientRetry.tla / BackoffTrace.tla / RetryTrace.tla + harness backoff_vec + harness_app retry_sim"),
         dict(name="wake", path="tools/fam_wake.py", serves_properties=["C12"], kind_free_text="WriterWake.tla / WakeTrace.tla + loom hook penguin-mux/src/verif_wake.rs"),
         dict(name="tls", path="tools/fam_tls.py", serves_properties=["C17"], kind_free_text="TlsAuth.tla / MC_TlsAuth.tla / TlsTrace.tla + harness_app tls_matrix"),
